@@ -138,9 +138,6 @@ theorem float_range_witnesses :
     fromNum (.fin true 1 (-1075) 64) (.float false) = .ok (.flt (.fin true 0 0 53)) := by
   refine ⟨?_, ?_, ?_, ?_, ?_, ?_, ?_, ?_, ?_, ?_, ?_⟩ <;> rfl
 
-/-- 2^1024 − 2^970: the midpoint between the largest float64 and 2^1024 -/
-def thr64 : Num := .fin false (2 ^ 54 - 1) 970 64
-
 /-- Float64, closed form: a finite number is refused exactly when its magnitude is at
 least 2^1024 − 2^970 (exact comparison `Num.cmp`) — every finite number that
 round-to-nearest-even keeps within the finite range of float64, in particular
